@@ -102,8 +102,8 @@ class SubstituteInterpret(Contract):
       * for a helper term built by a metaclass while the node is rebuilt (cls is not self.cls): every key it lists as fresh
         if it is a leaf of the requested class (nothing has been substituted into it yet: GaussianMeta's shift Tensor), and
         NOTHING if it was evaluated to another kind of term (it is made of already substituted operands: Gaussian' + shift).
-    The first case is split by the known finding lost-substitution-into-rebuilt-term: a key of the original node is lost
-    when the rebuilt term no longer lists it as fresh (a lazy MarkovProduct / Stack / Cat evaluating to a compound term)."""
+    When the rebuilt node no longer lists one of those names as fresh (a lazy MarkovProduct / Stack / Cat that evaluated to a
+    compound term) the pairs are applied with a general Subs instead of the node's own eager_subs -- no pair is lost."""
 
     props = ("C04", "C05")
     file = "funsor/terms.py"
@@ -111,8 +111,9 @@ class SubstituteInterpret(Contract):
     total = True
     mutants = (
         ("every fresh name of the rebuilt term substituted (pinned-tree behaviour)", "                fresh = self.fresh\n", "                fresh = expr.fresh\n"),
+        ("names the rebuilt term does not list as fresh are dropped (pinned-tree behaviour)", "                expr = Subs(expr, fresh_subs)", "                pass"),
         ("helper terms matched against the rebuilt node's names (first repair only)", "            if cls is self.cls:\n", "            if True:\n"),
-        ("substituted one pair at a time", "                expr = instrument.debug_logged(expr.eager_subs)(fresh_subs)", "                for pair in fresh_subs:\n                    expr = expr.eager_subs((pair,))"),
+        ("substituted one pair at a time", "                    expr = instrument.debug_logged(expr.eager_subs)(fresh_subs)", "                    for pair in fresh_subs:\n                        expr = expr.eager_subs((pair,))"),
     )
 
     def structures(self, tier):
@@ -174,15 +175,17 @@ class SubstituteInterpret(Contract):
             def debug_logged(f):
                 return f
 
-        return Ctx(args=(s, Requested), namespace=dict(instrument=Instr, tuple=tuple, frozenset=frozenset, isinstance=isinstance), log=log, rebuilt=rebuilt, subs=subs, st=st)
+        def Subs(expr, pairs):
+            d = dsubst(expr.den, {k: v.den for k, v in pairs})
+            return Term(d, dfree(d))
+
+        return Ctx(args=(s, Requested), namespace=dict(instrument=Instr, Subs=Subs, tuple=tuple, frozenset=frozenset, isinstance=isinstance, all=core.sall), log=log, rebuilt=rebuilt, subs=subs, st=st)
 
     def ensures(self, ctx, result):
         role, keys, vals, own, built, fresh_mode = ctx.st
         tag = ""
         if role == "node":
             m = {k: v.den for k, v in ctx.subs if k in own and k in built}
-            if any(k in own and k in built and k not in ctx.rebuilt.fresh for k, v in ctx.subs):
-                tag = "[rebuilt term no longer lists the name as fresh]"
             clause = "exactly_the_nodes_own_names_substituted_once"
         elif role == "helper-leaf":
             m = {k: v.den for k, v in ctx.subs if k in built}
@@ -212,9 +215,8 @@ class Substitute(Contract):
     mention a key are returned as they are, and a term that mentions no key is returned itself.
     Callees by contract: interpreter.anf (contract Anf: every node once, children first), SubstituteInterpretation.interpret
     (contract SubstituteInterpret, with an adversarial choice of the rebuilt term's .fresh).
-    The clause is split by two known findings: C04/fresh-name-captures-value-input (a value substituted into a child mentions
-    a name that the parent node introduces and that is itself a key: rebuilding the parent identifies the two) and
-    C10/lost-substitution-into-rebuilt-term (the callee drops a key when the rebuilt term lists no fresh names)."""
+    The clause is split by the known finding C04/fresh-name-captures-value-input (a value substituted into a child mentions a
+    name that the parent node introduces and that is itself a key: rebuilding the parent identifies the two)."""
 
     props = ("C04", "C05")
     file = "funsor/terms.py"
@@ -313,7 +315,7 @@ class Substitute(Contract):
                 fresh_part = ("app", "fresh") + tuple(var(n) for n in sorted(node.fresh))
                 d = ("app", node.label, fresh_part) + tuple(a.den for a in args) if node._ast_values else node.den
                 rebuilt_fresh = dfree(d) if fresh_mode == "all" else (set(node.fresh) if fresh_mode == "lazy" else set())
-                m = {k: v.den for k, v in self_.subs if k in self_.fresh and k in rebuilt_fresh}
+                m = {k: v.den for k, v in self_.subs if k in self_.fresh and k in dfree(d)}
                 d2 = dsubst(d, m)
                 return Term(d2, dfree(d2) if fresh_mode == "all" else ((set(node.fresh) - set(m)) if fresh_mode == "lazy" else ()), node.label, tuple(args))
 
@@ -339,8 +341,6 @@ class Substitute(Contract):
         t, keys, vals, fresh_mode = ctx.st
         m = {k: v.den for k, v in ctx.subs}
         tag = "[value mentions a key that the parent node introduces]" if self.captures(ctx.st) else ""
-        if fresh_mode == "none" and any(k in ctx.expr.inputs for k in m):
-            tag += "[rebuilt term no longer lists the name as fresh]"
         touched = any(k in ctx.expr.inputs for k in m)
         cl = [("simultaneous_substitution_where_each_name_is_introduced" + tag, isinstance(result, Term) and result.den == spec(ctx.expr, m)), ("interpretation_stack_restored", ctx.state["depth"] == 0)]
         if not touched:
